@@ -538,9 +538,10 @@ class FnFacts:
             idx = self.fn.params.index(name)
             sets = []
             for cfn, call in callers:
-                if idx < len(call.args) and isinstance(call.args[idx], ast.Name):
+                if idx < len(call.args):
                     cf = facts(self.scope, cfn)
-                    sets.append(cf.valueset(call.args[idx].id, call, depth + 1))
+                    sets.append(cf.valueset_expr(call.args[idx], call,
+                                                 depth + 1))
                 else:
                     sets.append(None)
             if sets and all(s is not None for s in sets):
@@ -575,6 +576,32 @@ class FnFacts:
                             continue
                         base = {x for x in base if _cmp(x, a.op, c)}
         return base
+
+    def valueset_expr(self, e, at_node, depth=0):
+        """Finite value set of an integer expression built from constants
+        and names with finite value sets, else None."""
+        c = const_int(e)
+        if c is not None:
+            return {c}
+        if isinstance(e, ast.Name):
+            return self.valueset(e.id, at_node, depth)
+        if isinstance(e, ast.Call) and (call_name(e) or "") in (
+                "int", "np.uint64", "np.uint32", "abs") and len(e.args) == 1:
+            return self.valueset_expr(e.args[0], at_node, depth)
+        if isinstance(e, ast.BinOp) and depth < 4:
+            ls = self.valueset_expr(e.left, at_node, depth + 1)
+            rs = self.valueset_expr(e.right, at_node, depth + 1)
+            if ls is None or rs is None or len(ls) * len(rs) > 4096:
+                return None
+            out = set()
+            try:
+                for x in ls:
+                    for y in rs:
+                        out.add(_apply(e.op, x, y, True))
+            except ZeroDivisionError:
+                return None
+            return out
+        return None
 
     def _exit_guards(self):
         """`if t: ...return/continue` without else: on the fall-through path
@@ -630,10 +657,12 @@ _FACTS = {}
 
 
 def facts(scope, fn):
-    k = (id(scope), fn.key)
-    if k not in _FACTS:
-        _FACTS[k] = FnFacts(scope, fn)
-    return _FACTS[k]
+    # kept on the scope object (an id()-keyed global table can hand a dead
+    # scope's facts to a new scope that re-uses the address)
+    cache = scope.__dict__.setdefault("_facts_cache", {})
+    if fn.key not in cache:
+        cache[fn.key] = FnFacts(scope, fn)
+    return cache[fn.key]
 
 
 # ---------------------------------------------------------------------
@@ -851,7 +880,7 @@ def _array_tainted(scope, ff, fn, operand):
     return False
 
 
-def _reshape_discharge(scope, ff, node, operand, depth=0):
+def _reshape_discharge(scope, ff, node, operand, depth=0, bind=None):
     """The operand's *size* is fixed independently of the untrusted bytes, or
     the underlying buffer has a length guard."""
     fn = ff.fn
@@ -865,6 +894,14 @@ def _reshape_discharge(scope, ff, node, operand, depth=0):
                 continue
             seen.add(e.id)
             ds = [d for d in ff.defs.get(e.id, []) if d.value is not None]
+            if not ds and bind and e.id in bind:
+                # a parameter: its size is that of the caller's argument
+                cff, arg, cnode = bind[e.id]
+                ok_, how_ = _reshape_discharge(scope, cff, cnode, arg,
+                                               depth + 1)
+                if not ok_:
+                    return False, how_
+                continue
             if not ds:
                 return False, "size of %s unknown" % e.id
             exprs.extend(d.value for d in ds)
@@ -903,8 +940,18 @@ def _reshape_discharge(scope, ff, node, operand, depth=0):
                 cf = facts(scope, callee)
                 rets = [s.value for s in stmts_of(callee.node)
                         if isinstance(s, ast.Return) and s.value is not None]
+                cparams = list(callee.params)
+                if cparams and cparams[0] in ("self", "cls") and isinstance(
+                        e.func, ast.Attribute):
+                    cparams = cparams[1:]
+                cbind = {p_: (ff, a_, node)
+                         for p_, a_ in zip(cparams, e.args)}
+                for k_ in e.keywords:
+                    if k_.arg:
+                        cbind[k_.arg] = (ff, k_.value, node)
                 for r in rets:
-                    ok, how = _reshape_discharge(scope, cf, r, r, depth + 1)
+                    ok, how = _reshape_discharge(scope, cf, r, r, depth + 1,
+                                                 cbind)
                     if not ok:
                         return False, "%s returns %s: %s" % (callee.key,
                                                              norm(r), how)
@@ -981,6 +1028,10 @@ def _via_record(ff, expr, depth=0):
         ds = [d for d in ff.defs.get(expr.id, []) if d.value is not None]
         return bool(ds) and any(_via_record(ff, d.value, depth + 1)
                                 for d in ds if d.index is None)
+    if isinstance(expr, (ast.BinOp, ast.UnaryOp, ast.Call)) and depth < 3:
+        return any(_via_record(ff, x, depth + 1)
+                   for x in ast.iter_child_nodes(expr)
+                   if isinstance(x, ast.expr))
     return False
 
 
@@ -997,7 +1048,7 @@ def _set_discharge(ff, node, kind, operand):
             if not ff.scope.expr_tainted(cfn, a):
                 continue
             cf = facts(ff.scope, cfn)
-            s = cf.valueset(a.id, call) if isinstance(a, ast.Name) else None
+            s = cf.valueset_expr(a, call)
             if s is None and (_via_record(cf, a) or (
                     isinstance(a, ast.Name) and
                     _derived_from_record(cf, a.id))):
@@ -1049,7 +1100,7 @@ def _set_discharge(ff, node, kind, operand):
                 if s is None:
                     return False, "loop extent %s is untrusted and unbounded" \
                         % nm
-                bounded.append("%s<=%d" % (nm, max(s)))
+                bounded.append("%s<=%s" % (nm, max(s) if s else "-"))
         return True, "D-set: " + ", ".join(bounded)
     return False, ""
 
@@ -1066,7 +1117,7 @@ def decoded_shape(repo, col):
         cs = params[1] if len(params) > 1 else "chunk_size"
         ok, how = _returns_shape(repo, fn, cs, "self.num_channels")
         col.add(rule, fn, "return shape (C, %s[2], %s[1], %s[0])" % (cs, cs, cs),
-                ok, how, node=fn.node)
+                ok is not False, how, node=fn.node, undecided=ok is None)
         # each call returns its own array: nothing decoded is kept on self
         kept = [n for n in walk_local(fn.node) if isinstance(n, (ast.Assign,
                                                                  ast.AugAssign))
@@ -1074,8 +1125,14 @@ def decoded_shape(repo, col):
                         isinstance(t.value, ast.Name) and t.value.id == "self"
                         for t in (n.targets if isinstance(n, ast.Assign)
                                   else [n.target]))]
+        def _self_storage(e):
+            # self.x / self.x[i] (not the result of calling a method)
+            while isinstance(e, ast.Subscript):
+                e = e.value
+            return isinstance(e, ast.Attribute) and isinstance(
+                e.value, ast.Name) and e.value.id == "self"
         rets_self = [r for r in stmts_of(fn.node) if isinstance(r, ast.Return)
-                     and r.value is not None and norm(r.value).startswith("self.")]
+                     and r.value is not None and _self_storage(r.value)]
         okf = not kept and not rets_self
         col.add(rule + ".fresh", fn, "decode() keeps no array on self", okf,
                 "" if okf else "decode() stores / returns an array held on "
@@ -1092,14 +1149,41 @@ def _shape_matches(elts, cs, ch):
         [norm(e) for e in elts[1:]] == want
 
 
+def _module_behind(fn, call):
+    """`self._codec()` / `_codec()` returning a lazily imported module of the
+    package: that module, else None."""
+    from .core import resolve_local_call
+    h = resolve_local_call(fn, call)
+    if h is None:
+        return None
+    rets = [r.value for r in stmts_of(h.node) if isinstance(r, ast.Return)
+            and r.value is not None]
+    if len(rets) != 1:
+        return None
+    tbl = {}
+    h.module._collect_imports(h.node, tbl)
+    tbl = dict(h.module.imports, **tbl)
+    tgt = tbl.get(dotted(rets[0]) or "")
+    if tgt is None and isinstance(rets[0], ast.Attribute):
+        tgt = h.module.resolve(dotted(rets[0]) or "")
+    if tgt and tgt in h.module.repo.modules:
+        return h.module.repo.modules[tgt]
+    return None
+
+
 def _returns_shape(repo, fn, cs, ch, depth=0):
+    """(True, how) every return yields the requested shape; (False, how) a
+    return builds an array with a different shape; (None, how) not
+    recognised."""
     defs = local_defs(fn.node)
     rets = [s for s in stmts_of(fn.node) if isinstance(s, ast.Return)]
     if not rets:
-        return False, "no return"
+        return None, "no return"
+    unknown = None
     for r in rets:
         e = r.value
         ok = False
+        seen_shape_call = False
         cands = [e]
         if isinstance(e, ast.Name):
             cands = [d.value for d in defs.get(e.id, []) if d.value is not None]
@@ -1129,13 +1213,19 @@ def _returns_shape(repo, fn, cs, ch, depth=0):
                         elts = args[0].elts
                     else:
                         elts = args
+                    if len(elts) == 4:
+                        seen_shape_call = True
                     if _shape_matches(elts, cs, ch):
                         ok = True
             if not ok and isinstance(c, ast.Call) and depth < 2:
                 # delegate: _jpeg.decode_chunk(buf, chunk_size, num_channels)
-                from .rules_exc import Scope  # noqa
                 sc = Scope(repo, [], {})
                 callee = sc.resolve(fn, c)
+                if callee is None and isinstance(c.func, ast.Attribute) and \
+                        isinstance(c.func.value, ast.Call):
+                    om = _module_behind(fn, c.func.value)
+                    if om is not None:
+                        callee = om.functions.get(c.func.attr)
                 if callee is not None:
                     # map parameters
                     cparams = callee.params
@@ -1146,10 +1236,19 @@ def _returns_shape(repo, fn, cs, ch, depth=0):
                         if norm(a) == ch and i < len(cparams):
                             ch2 = cparams[i]
                     if cs2 and ch2:
-                        ok, _ = _returns_shape(repo, callee, cs2, ch2,
-                                               depth + 1)
+                        sub, _ = _returns_shape(repo, callee, cs2, ch2,
+                                                depth + 1)
+                        if sub:
+                            ok = True
+                        elif sub is False:
+                            seen_shape_call = True
         if not ok:
-            return False, "return value `%s` is not allocated / reshaped with " \
+            msg = "return value `%s` is not allocated / reshaped with " \
                 "the requested shape (C, Z, Y, X) = (%s, %s[2], %s[1], %s[0])" \
                 % (norm(e), ch, cs, cs, cs)
+            if seen_shape_call:
+                return False, msg
+            unknown = msg
+    if unknown:
+        return None, unknown
     return True, "all %d return paths yield the requested shape" % len(rets)
